@@ -217,6 +217,8 @@ package otto
 // code's own comparison, not specified here).
 //@ func sameValue
 //@   props C05 C07
+//@   logical
+//@   nothrow
 //@   requires jsValue(x) && jsValue(y)
 //@   ensures x.kind != y.kind ==> !result
 //@   ensures x.kind == y.kind && (x.kind == valueUndefined || x.kind == valueNull) ==> result
@@ -227,6 +229,7 @@ package otto
 // ES5 11.9.6 strict equality.
 //@ func strictEqualityComparison
 //@   props C05
+//@   nothrow
 //@   requires jsValue(x) && jsValue(y)
 //@   ensures x.kind != y.kind ==> !result
 //@   ensures x.kind == y.kind && (x.kind == valueUndefined || x.kind == valueNull) ==> result
@@ -405,25 +408,201 @@ package otto
 //@ func (*runtime).panicTypeError
 //@   props C19
 //@   nothrow
-//@   pure
+//@   modifies exception.value
 //@   ensures result != nil && result.value.(ottoError).name == "TypeError" && is(result.value, ottoError)
 //@ func (*runtime).panicRangeError
 //@   props C19
 //@   nothrow
-//@   pure
+//@   modifies exception.value
 //@   ensures result != nil && result.value.(ottoError).name == "RangeError" && is(result.value, ottoError)
 //@ func (*runtime).panicReferenceError
 //@   props C19
 //@   nothrow
-//@   pure
+//@   modifies exception.value
 //@   ensures result != nil && result.value.(ottoError).name == "ReferenceError" && is(result.value, ottoError)
 //@ func (*runtime).panicSyntaxError
 //@   props C19
 //@   nothrow
-//@   pure
+//@   modifies exception.value
 //@   ensures result != nil && result.value.(ottoError).name == "SyntaxError" && is(result.value, ottoError)
 //@ func (*runtime).panicURIError
 //@   props C19
 //@   nothrow
-//@   pure
+//@   modifies exception.value
 //@   ensures result != nil && result.value.(ottoError).name == "URIError" && is(result.value, ottoError)
+
+// ---------------------------------------------------------------------------
+// property.go: the octal attribute algebra (C07)
+// ---------------------------------------------------------------------------
+
+// A mode has three octal digits: write (k=2), enumerate (k=1), configure (k=0); each is
+// 0 = off, 1 = on, 2 = not specified (only meaningful in descriptors).
+//@ spec dig(m propertyMode, k int) int = int((m >> uint(3*k)) & 7)
+//@ spec wfMode(m propertyMode) bool = 0 <= m && m < 512 && dig(m, 2) <= 2 && dig(m, 1) <= 2 && dig(m, 0) <= 2
+//@ sanity[C07] dig(0o111, 2) == 1 && dig(0o120, 1) == 2 && dig(0o120, 0) == 0 && wfMode(0o222) && !wfMode(0o333)
+
+//@ func (property).writable
+//@   props C07
+//@   ensures result <==> dig(p.mode, 2) == 1
+//@   nothrow
+//@   pure
+//@ func (property).enumerable
+//@   props C07
+//@   ensures result <==> dig(p.mode, 1) == 1
+//@   nothrow
+//@   pure
+//@ func (property).configurable
+//@   props C07
+//@   ensures result <==> dig(p.mode, 0) == 1
+//@   nothrow
+//@   pure
+//@ func (property).writeSet
+//@   props C07
+//@   requires wfMode(p.mode)
+//@   ensures result <==> dig(p.mode, 2) != 2
+//@   nothrow
+//@   pure
+//@ func (property).enumerateSet
+//@   props C07
+//@   requires wfMode(p.mode)
+//@   ensures result <==> dig(p.mode, 1) != 2
+//@   nothrow
+//@   pure
+//@ func (property).configureSet
+//@   props C07
+//@   requires wfMode(p.mode)
+//@   ensures result <==> dig(p.mode, 0) != 2
+//@   nothrow
+//@   pure
+//@ func (*property).writeOn
+//@   props C07
+//@   requires p != nil
+//@   ensures dig(p.mode, 2) == 1 && dig(p.mode, 1) == old(dig(p.mode, 1)) && dig(p.mode, 0) == old(dig(p.mode, 0)) && (old(wfMode(p.mode)) ==> wfMode(p.mode))
+//@   modifies property.mode
+//@   nothrow
+//@ func (*property).writeOff
+//@   props C07
+//@   requires p != nil
+//@   ensures dig(p.mode, 2) == 0 && dig(p.mode, 1) == old(dig(p.mode, 1)) && dig(p.mode, 0) == old(dig(p.mode, 0)) && (old(wfMode(p.mode)) ==> wfMode(p.mode))
+//@   modifies property.mode
+//@   nothrow
+//@ func (*property).writeClear
+//@   props C07
+//@   requires p != nil
+//@   ensures dig(p.mode, 2) == 2 && dig(p.mode, 1) == old(dig(p.mode, 1)) && dig(p.mode, 0) == old(dig(p.mode, 0)) && (old(wfMode(p.mode)) ==> wfMode(p.mode))
+//@   modifies property.mode
+//@   nothrow
+//@ func (*property).enumerateOn
+//@   props C07
+//@   requires p != nil
+//@   ensures dig(p.mode, 1) == 1 && dig(p.mode, 2) == old(dig(p.mode, 2)) && dig(p.mode, 0) == old(dig(p.mode, 0)) && (old(wfMode(p.mode)) ==> wfMode(p.mode))
+//@   modifies property.mode
+//@   nothrow
+//@ func (*property).enumerateOff
+//@   props C07
+//@   requires p != nil
+//@   ensures dig(p.mode, 1) == 0 && dig(p.mode, 2) == old(dig(p.mode, 2)) && dig(p.mode, 0) == old(dig(p.mode, 0)) && (old(wfMode(p.mode)) ==> wfMode(p.mode))
+//@   modifies property.mode
+//@   nothrow
+//@ func (*property).configureOn
+//@   props C07
+//@   requires p != nil
+//@   ensures dig(p.mode, 0) == 1 && dig(p.mode, 2) == old(dig(p.mode, 2)) && dig(p.mode, 1) == old(dig(p.mode, 1)) && (old(wfMode(p.mode)) ==> wfMode(p.mode))
+//@   modifies property.mode
+//@   nothrow
+//@ func (*property).configureOff
+//@   props C07
+//@   requires p != nil
+//@   ensures dig(p.mode, 0) == 0 && dig(p.mode, 2) == old(dig(p.mode, 2)) && dig(p.mode, 1) == old(dig(p.mode, 1)) && (old(wfMode(p.mode)) ==> wfMode(p.mode))
+//@   modifies property.mode
+//@   nothrow
+
+// ES5 8.10.1-3 on the internal representation: a descriptor is an accessor descriptor
+// iff it carries a get/set pair with at least one side present (the sentinel counts as
+// present-but-undefined), a data descriptor iff writable is specified or a value is.
+//@ func (property).isAccessorDescriptor
+//@   props C07
+//@   ensures result <==> is(p.value, propertyGetSet) && (p.value.(propertyGetSet)[0] != nil || p.value.(propertyGetSet)[1] != nil)
+//@   nothrow
+//@   pure
+//@ func (property).isDataDescriptor
+//@   props C07
+//@   requires wfMode(p.mode)
+//@   ensures result <==> dig(p.mode, 2) != 2 || (is(p.value, Value) && p.value.(Value).kind != valueEmpty)
+//@   nothrow
+//@   pure
+//@ func (property).isGenericDescriptor
+//@   props C07
+//@   requires wfMode(p.mode)
+//@   ensures result <==> !(dig(p.mode, 2) != 2 || (is(p.value, Value) && p.value.(Value).kind != valueEmpty)) && !(is(p.value, propertyGetSet) && (p.value.(propertyGetSet)[0] != nil || p.value.(propertyGetSet)[1] != nil))
+//@   nothrow
+//@   pure
+//@ func (property).isEmpty
+//@   props C07
+//@   requires wfMode(p.mode)
+//@   ensures result <==> p.mode == 0o222 && !(is(p.value, Value) && p.value.(Value).kind != valueEmpty) && !(is(p.value, propertyGetSet) && (p.value.(propertyGetSet)[0] != nil || p.value.(propertyGetSet)[1] != nil))
+//@   nothrow
+//@   pure
+
+// ---------------------------------------------------------------------------
+// object_class.go: [[DefineOwnProperty]] (ES5 8.12.9) on the internal representation
+// ---------------------------------------------------------------------------
+
+// Descriptor as produced by toPropertyDescriptor / the internal callers: value is absent
+// (nil), a Value, or a get/set pair (side nil = absent, &nilGetSetObject = present but
+// undefined); a get/set pair never comes with a writable attribute (8.10.5 step 9).
+//@ spec wfDescriptor(d property) bool = wfMode(d.mode) && (isnil(d.value) || is(d.value, Value) || is(d.value, propertyGetSet)) &&
+//@+  (is(d.value, propertyGetSet) ==> dig(d.mode, 2) == 2 && (d.value.(propertyGetSet)[0] != nil || d.value.(propertyGetSet)[1] != nil)) && (is(d.value, Value) ==> jsValue(d.value.(Value)))
+// Stored property: a Value or a get/set pair without sentinels; accessors carry no writable digit.
+//@ spec wfStored(p property) bool = wfMode(p.mode) && (is(p.value, Value) || is(p.value, propertyGetSet)) && (is(p.value, Value) ==> jsValue(p.value.(Value))) &&
+//@+  (is(p.value, propertyGetSet) ==> dig(p.mode, 2) == 2 && p.value.(propertyGetSet)[0] != &nilGetSetObject && p.value.(propertyGetSet)[1] != &nilGetSetObject)
+//@ spec dAcc(d property) bool = is(d.value, propertyGetSet) && (d.value.(propertyGetSet)[0] != nil || d.value.(propertyGetSet)[1] != nil)
+//@ spec dData(d property) bool = dig(d.mode, 2) != 2 || (is(d.value, Value) && d.value.(Value).kind != valueEmpty)
+//@ spec dGeneric(d property) bool = !dData(d) && !dAcc(d)
+//@ spec dEmptyD(d property) bool = d.mode == 0o222 && dGeneric(d)
+//@ spec normSide(x *object) *object = ite(x == &nilGetSetObject, nil, x)
+// 8.12.9 step 11: a present get/set that differs from the current one
+//@ spec accChanged(cur property, d property) bool = (d.value.(propertyGetSet)[0] != nil && normSide(d.value.(propertyGetSet)[0]) != cur.value.(propertyGetSet)[0]) ||
+//@+  (d.value.(propertyGetSet)[1] != nil && normSide(d.value.(propertyGetSet)[1]) != cur.value.(propertyGetSet)[1])
+// 8.12.9 steps 7-11: the conditions under which the definition is rejected
+//@ spec rej(cur property, d property) bool =
+//@+  (dig(cur.mode, 0) != 1 && (dig(d.mode, 0) == 1 || (dig(d.mode, 1) != 2 && (dig(d.mode, 1) == 1) != (dig(cur.mode, 1) == 1)))) ||
+//@+  (!dGeneric(d) && is(cur.value, Value) != dData(d) && dig(cur.mode, 0) != 1) ||
+//@+  (!dGeneric(d) && is(cur.value, Value) && dData(d) && dig(cur.mode, 0) != 1 && dig(cur.mode, 2) != 1 && (dig(d.mode, 2) == 1 || (is(d.value, Value) && !sameValue(cur.value.(Value), d.value.(Value))))) ||
+//@+  (!dGeneric(d) && !is(cur.value, Value) && !dData(d) && dig(cur.mode, 0) != 1 && accChanged(cur, d))
+// 8.12.9 step 12: the get/set side i after the definition
+//@ spec mergedSide(cur property, d property, i int) *object = ite(d.value.(propertyGetSet)[i] == &nilGetSetObject, nil,
+//@+  ite(d.value.(propertyGetSet)[i] != nil, d.value.(propertyGetSet)[i], ite(is(cur.value, propertyGetSet), cur.value.(propertyGetSet)[i], nil)))
+
+//@ func objectDefineOwnProperty
+//@   props C07
+//@   requires obj != nil && obj.property != nil && wfDescriptor(descriptor)
+//@   requires has(obj.property, name) ==> wfStored(obj.property[name])
+//@   ensures !old(has(obj.property, name)) ==> (result <==> old(obj.extensible))
+//@   ensures !old(has(obj.property, name)) && result ==> has(obj.property, name) && obj.property[name].mode == descriptor.mode
+//@   ensures !old(has(obj.property, name)) && result && isnil(descriptor.value) ==> is(obj.property[name].value, Value) && obj.property[name].value.(Value) == Value{}
+//@   ensures !old(has(obj.property, name)) && result && is(descriptor.value, Value) ==> obj.property[name].value == descriptor.value
+//@   ensures !old(has(obj.property, name)) && result && is(descriptor.value, propertyGetSet) ==> is(obj.property[name].value, propertyGetSet) &&
+//@+    obj.property[name].value.(propertyGetSet)[0] == normSide(descriptor.value.(propertyGetSet)[0]) && obj.property[name].value.(propertyGetSet)[1] == normSide(descriptor.value.(propertyGetSet)[1])
+//@   ensures old(has(obj.property, name)) && dEmptyD(descriptor) ==> result && obj.property[name] == old(obj.property[name])
+//@   ensures old(has(obj.property, name)) && !dEmptyD(descriptor) ==> (result <==> !rej(old(obj.property[name]), descriptor))
+//@   ensures old(has(obj.property, name)) && !dEmptyD(descriptor) && result ==>
+//@+    (dig(obj.property[name].mode, 1) == 1 <==> ite(dig(descriptor.mode, 1) != 2, dig(descriptor.mode, 1) == 1, dig(old(obj.property[name]).mode, 1) == 1)) &&
+//@+    (dig(obj.property[name].mode, 0) == 1 <==> ite(dig(descriptor.mode, 0) != 2, dig(descriptor.mode, 0) == 1, dig(old(obj.property[name]).mode, 0) == 1))
+//@   ensures old(has(obj.property, name)) && !dEmptyD(descriptor) && result && is(obj.property[name].value, Value) ==>
+//@+    (dig(obj.property[name].mode, 2) == 1 <==> ite(dig(descriptor.mode, 2) != 2, dig(descriptor.mode, 2) == 1, is(old(obj.property[name]).value, Value) && dig(old(obj.property[name]).mode, 2) == 1))
+//@   ensures old(has(obj.property, name)) && !dEmptyD(descriptor) && result && is(obj.property[name].value, propertyGetSet) ==> dig(obj.property[name].mode, 2) == 2
+//@   ensures old(has(obj.property, name)) && !dEmptyD(descriptor) && result && isnil(descriptor.value) && !(dData(descriptor) && !is(old(obj.property[name]).value, Value)) ==> obj.property[name].value == old(obj.property[name]).value
+//@   ensures old(has(obj.property, name)) && !dEmptyD(descriptor) && result && dData(descriptor) ==> is(obj.property[name].value, Value)
+//@   ensures old(has(obj.property, name)) && !dEmptyD(descriptor) && result && is(descriptor.value, Value) ==> obj.property[name].value == descriptor.value
+//@   ensures old(has(obj.property, name)) && !dEmptyD(descriptor) && result && is(descriptor.value, propertyGetSet) ==> is(obj.property[name].value, propertyGetSet) &&
+//@+    obj.property[name].value.(propertyGetSet)[0] == mergedSide(old(obj.property[name]), descriptor, 0) && obj.property[name].value.(propertyGetSet)[1] == mergedSide(old(obj.property[name]), descriptor, 1)
+//@   ensures result ==> has(obj.property, name) && wfStored(obj.property[name])
+//@   ensures !result ==> (has(obj.property, name) <==> old(has(obj.property, name))) && obj.property[name] == old(obj.property[name])
+//@   ensures forall k string :: k != name ==> obj.property[k] == old(obj.property[k]) && (has(obj.property, k) <==> old(has(obj.property, k)))
+//@   throws throw && ((!has(obj.property, name) && !obj.extensible) || (has(obj.property, name) && !dEmptyD(descriptor) && rej(obj.property[name], descriptor)))
+
+//@ func (*object).readProperty
+//@   inline
+//@ func (*object).writeProperty
+//@   inline
